@@ -1,0 +1,9 @@
+//go:build verif
+
+// Contracts for package pubsub_controller, checked by /verif (bfvc). Comment-only.
+package pubsub_controller
+
+// C34: the pubsub controller takes a stream only for its own protocol ID.
+//@ func (*Controller).handleMountedStream
+//@   noframe
+//@   ensures ret0 != nil ==> dir.HandleMountedStreamProtocolID() == c.protocolID
